@@ -11,6 +11,7 @@ classical conditions.
 from __future__ import annotations
 
 import ast
+import itertools
 import re
 
 import numpy as np
@@ -371,6 +372,8 @@ def run(ctx):
         for n in ast.walk(fn):
             if isinstance(n, ast.Assign) and isinstance(n.value, ast.Constant) and isinstance(n.value.value, str) and re.match(r'^[a-z]\w* \{0\}', n.value.value):
                 line = n.value.value.strip()
+                if line.split(' ')[0] in ('measure', 'reset', 'barrier'):
+                    continue   # language statements, not library gates (the measure statement is decided by interpretation under C19.h)
                 probe = re.sub(r'\{(\d+)(?::(\w+))?\}', lambda m: ('pi*0.5' if m.group(2) else f'q{m.group(1)}'), line)
                 m = INSTR.match(probe)
                 ok = bool(m) and m.group(1) in QELIB and QELIB[m.group(1)][1] == len([q for q in m.group(3).split(',') if q.strip()])
@@ -378,7 +381,7 @@ def run(ctx):
 
     # ------------------------------------------------------------------ C19.c
     ctx.rule('C19.c', 'every _qasm_ that formats output calls args.validate_version first; QasmOutput._write_operations handles each operation by '
-             'emitting, decomposing or raising; MeasurementGate._qasm_ emits the invert-mask x lines under the same test before and after the measure', floor=15, style='MPT')
+             'emitting, decomposing or raising', floor=15, style='MPT')
     for ci in sorted(repo.classes.values(), key=lambda c: c.qual):
         if '.testing.' in ci.qual or '.contrib.' in ci.qual:
             continue
@@ -401,23 +404,7 @@ def run(ctx):
     src = ast.unparse(wo)
     ok = 'decompose' in src and ('raise' in src or 'on_stuck_raise' in src) and 'qasm(' in src.replace('protocols.qasm', 'qasm')
     ctx.ob('C19.c', f'{qo.qual}._write_operations:no-op-dropped', ok, '' if ok else 'the program writer no longer (emits | decomposes | raises) for every operation', qo.mod.rel, wo.lineno)
-    mg = repo.cls('cirq.ops.measurement_gate.MeasurementGate')
-    mq = mg.methods.get('_qasm_')
-    if mq is None:
-        raise AnalysisError('MeasurementGate._qasm_ vanished')
-    xs = [c for c in ast.walk(mq) if isinstance(c, ast.Call) and call_name(c) == 'format' and c.args and isinstance(c.args[0], ast.Constant)
-          and str(c.args[0].value).startswith('x ')]
-    ms = [c for c in ast.walk(mq) if isinstance(c, ast.Call) and call_name(c) == 'format' and c.args and isinstance(c.args[0], ast.Constant)
-          and 'measure' in str(c.args[0].value).split('//')[0]]
-    xs.sort(key=lambda c: c.lineno)
-    ok = len(xs) == 2 and bool(ms) and xs[0].lineno < min(m.lineno for m in ms) and max(m.lineno for m in ms) < xs[1].lineno
-    if ok:
-        from ..flow import dominating_atoms
-        par = mg.mod.parents()
-        a0 = sorted(ast.unparse(a) + str(p) for a, p in dominating_atoms(par, xs[0], mq))
-        a1 = sorted(ast.unparse(a) + str(p) for a, p in dominating_atoms(par, xs[1], mq))
-        ok = a0 == a1 and any('invert' in a or 'inv' in a for a in a0)
-    ctx.ob('C19.c', f'{mg.qual}._qasm_:invert-mask-symmetric', ok, '' if ok else 'the x flips for inverted measurement bits are not emitted under the same test before and after the measure', mg.mod.rel, mq.lineno)
+    # (that MeasurementGate._qasm_ wraps exactly the inverted positions in x statements is decided by interpretation: C19.h bit-position obligations)
     _entry_point_rules(ctx, repo)
     _phased_xz_qasm(ctx, repo)
     _conditional_lines(ctx, repo)
@@ -720,26 +707,68 @@ def _sympy_condition_bits(ctx, repo):
 
 
 def _measure_bit_positions(ctx, repo):
-    """Companion of C19.h: measured qubit i goes to bit i of the register (the layout the condition constants rely on)."""
+    """Companion of C19.h: measured qubit i goes to bit i of the register (the layout the condition constants rely on).
+    Decided by interpreting MeasurementGate._qasm_ on model gates (1-3 qubits, every invert mask incl. short ones, both language versions)
+    and reading the emitted text: statement k measures the k-th qubit of the operation into bit k of the key's register, and an inverted
+    position is wrapped in a pair of x statements on that qubit."""
     ci = repo.cls('cirq.ops.measurement_gate.MeasurementGate')
     fn = repo.method(ci.qual, '_qasm_')
-    loops = [l for l in ast.walk(fn) if isinstance(l, ast.For) and isinstance(l.iter, ast.Call) and call_name(l.iter) == 'enumerate'
-             and any(isinstance(x, ast.Name) and x.id == 'qubits' for x in ast.walk(l.iter)) and isinstance(l.target, ast.Tuple) and len(l.target.elts) == 2]
-    if not loops:
-        raise AnalysisError('MeasurementGate._qasm_: the enumerate(qubits) loop vanished')
-    lp = loops[0]
-    idx = lp.target.elts[0].id if isinstance(lp.target.elts[0], ast.Name) else None
-    t1 = lp.target.elts[1]
-    qn = t1.elts[0].id if isinstance(t1, ast.Tuple) and isinstance(t1.elts[0], ast.Name) else t1.id if isinstance(t1, ast.Name) else None
+    params = [a.arg for a in fn.args.args]
+    if len(params) != 3:
+        raise AnalysisError('MeasurementGate._qasm_: expected (self, args, qubits)')
+
+    def fmt(template, *vals):
+        def sub(m):
+            idx, spec = int(m.group(1)), m.group(2)
+            v = vals[idx]
+            if spec == 'meas':
+                return f'm_{v}'
+            if spec:
+                raise fdx.Unsupported(f'format spec {spec}')
+            return str(v)
+        return re.sub(r'\{(\d+)(?::(\w+))?\}', sub, template)
+
+    def call_hook(call, it):
+        if ast.unparse(call.func) == "''.join":
+            return ''.join(it.ev(call.args[0]))
+        return NotImplemented
     k = 0
-    for c in ast.walk(lp):
-        if isinstance(c, ast.Call) and isinstance(c.func, ast.Attribute) and c.func.attr == 'format' and c.args and isinstance(c.args[0], ast.Constant) \
-                and isinstance(c.args[0].value, str) and 'measure' in c.args[0].value and '{2}' in c.args[0].value:
-            k += 1
-            a = c.args[1:]
-            ok = len(a) == 3 and isinstance(a[0], ast.Name) and a[0].id == qn and isinstance(a[2], ast.Name) and a[2].id == idx
-            ctx.ob('C19.h', f'{ci.qual}._qasm_:bit-position#{k}', ok, '' if ok else
-                   f'`{ast.unparse(c)[:80]}`: the register index is not the position of the measured qubit in the operation', ci.mod.rel, c.lineno)
+    for version in ('2.0', '3.0'):
+        for n in (1, 2, 3):
+            masks = {m[:ln] for m in itertools.product((False, True), repeat=n) for ln in range(n + 1)}
+            for mask in sorted(masks):
+                full = tuple(mask) + (False,) * (n - len(mask))
+                me = {'key': 'k', '_mkey': 'k', 'invert_mask': tuple(mask), '_invert_mask': tuple(mask), 'confusion_map': {}, '_confusion_map': {},
+                      '_qid_shape': (2,) * n, 'full_invert_mask': (lambda f=full: f)}
+                args = {'format': fmt, 'validate_version': lambda *a: None, 'version': version, 'precision': 10}
+                it = fdx.NumInterp({params[0]: me, params[1]: args, params[2]: tuple(f'q{i}' for i in range(n))}, call_hook=call_hook)
+                try:
+                    out = it.call(fn)
+                except (fdx.Unsupported, fdx.Raised) as ex:
+                    raise AnalysisError(f'cannot interpret MeasurementGate._qasm_: {ex}')
+                lines = [l.split('//')[0].strip() for l in (out or '').split('\n') if l.strip()]
+                got, flips, cur = [], [], []
+                bad = None
+                for l in lines:
+                    m2 = re.fullmatch(r'measure (q\d+) -> m_k\[(\d+)\];', l) or None
+                    m3 = re.fullmatch(r'm_k\[(\d+)\] = measure (q\d+);', l) or None
+                    mx = re.fullmatch(r'x (q\d+);', l)
+                    if m2 and version == '2.0':
+                        got.append((m2.group(1), int(m2.group(2))))
+                    elif m3 and version == '3.0':
+                        got.append((m3.group(2), int(m3.group(1))))
+                    elif mx:
+                        flips.append((len(got), mx.group(1)))
+                    else:
+                        bad = f'unexpected statement `{l}`'
+                want = [(f'q{i}', i) for i in range(n)]
+                if bad is None and got != want:
+                    bad = f'measurements {got}: the register index is not the position of the measured qubit in the operation (expected {want})'
+                wantflips = [(i + d, f'q{i}') for i in range(n) if full[i] for d in (0, 1)]
+                if bad is None and sorted(flips) != sorted(wantflips):
+                    bad = f'inverting x statements {flips} do not wrap exactly the inverted positions {[i for i in range(n) if full[i]]}'
+                k += 1
+                ctx.ob('C19.h', f'{ci.qual}._qasm_:bit-position:v{version}:n={n}:mask={"".join("1" if b_ else "0" for b_ in mask) or "-"}', bad is None, bad or '', ci.mod.rel, fn.lineno)
     if k == 0:
         raise AnalysisError('MeasurementGate._qasm_: no measure statement found')
 
